@@ -4,9 +4,9 @@ package ssh1
 
 // Verification hook for property C08 (see /verif). Not compiled without the "verif" tag.
 
-// VerifDecrypt runs the 3DES decryption of the private part with the empty
+// VerifDecryptEmptyPassphrase runs the 3DES decryption of the private part with the empty
 // passphrase, as ParsePrivateKey(data, "") does. len(ciphertext) must be a
 // multiple of the block size.
-func VerifDecrypt(ciphertext []byte) []byte {
+func VerifDecryptEmptyPassphrase(ciphertext []byte) []byte {
 	return decrypt(ciphertext, []byte(""))
 }
